@@ -9,16 +9,19 @@ from . import common as K
 ID = "C10"
 REACH_TARGETS = [('runtime.ManagedFilter._process_model', 'formak.runtime:ManagedFilter._process_model')]
 LEVEL = "exploration"
-RULE = ("moves (current time a in [-1e3,1e3], target a+delta, delta in {0, +-1e-10, +-0.999e-9, +-1.001e-9, "
-        "+-n*max_dt, +-(n+f)*max_dt, +-max_dt*(1+-2^-52), random}, n<=2000) x max_dt in "
+RULE = ("moves (current time a in [-1e6,1e6], target a+delta, delta in {0, +-1e-10, +-0.999e-9, +-1.001e-9, "
+        "+-n*max_dt, +-(n+f)*max_dt, +-(n*max_dt + r) with r in [3e-9,1e-3], +-max_dt*(1+-2^-52), random}, "
+        "n<=2000; plus coasts of 2e4..4e5 steps and of 1.05e6..2.6e6 steps, run-length-encoded logs) x max_dt in "
         "{1e-3,.01,.05,.1,.3,.5,1} through the real Python runtime (recording stand-in filter) and the real "
         "ManagedFilter.h (recording Impl types, all four Tag combinations, ASan/UBSan); plus tick histories "
         "whose readings move the held time forwards and backwards; every recorded dt list is checked offline: "
-        "direction, |dt|<=max_dt+1e-9, exact-rational sum within 1e-9 (+8ulp/step), no step for equal times.  "
+        "direction, |dt|<=max_dt+1e-9, exact-rational sum within 1e-9 (+8 ulp of the times, independent of the "
+        "number of steps), no step for equal times.  "
         "non-trivial = move with >=2 steps or backwards or boundary delta; distinct = (runtime, max_dt, a, delta)")
 ASSUMPTIONS = [
     "the dt sequence is observed at the wrapped filter's process_model (Python) / Impl::process_model (C++)",
-    "|delta|/max_dt <= 2000 and |t| <= 1e3 ('moderate magnitude': 1e-9 exceeds the spacing of representable times)",
+    "|t| <= 1e6 ('moderate magnitude': 1e-9 exceeds the spacing of representable times, ulp(1e6) = 1.2e-10); "
+    "single moves up to 2.6e6 steps; direction and bound rules allow 4 ulp of the times (clock resolution)",
     "C++: g++ 12 / clang 14, -std=c++17, ASan+UBSan, recording Impl mirrors the generated filter's signatures",
 ]
 
